@@ -403,6 +403,7 @@ def zero_vs_omitted(rng):
         par = "X1"
     names = rng.sample(["ship", "sleep", "run", "tx", "idle"], rng.randint(2, 4))
     pa, pb = rng.sample(names, 2)
+    tiny = rng.random() < 0.35
     nl = rng.randint(1, 3)
     for j in range(nl):
         if rng.random() < 0.5:
@@ -412,7 +413,11 @@ def zero_vs_omitted(rng):
             c = {"name": "L%d" % j, "kind": "pload", "args": {"pwr": sd(rng, 1e-2, 1.0), "pwrs": sd(rng, 1e-6, 1e-3)}, "parents": [par]}
             val = lambda: sd(rng, 1e-2, 1.0)       # noqa
         pc = {p: val() for p in names if p not in (pa, pb) and rng.random() < 0.7}
-        if j == 0 or rng.random() < 0.5:
+        if tiny:
+            # ... or two phases whose only difference is a load value far below a microampere / microwatt
+            x = float("%.3g" % (10.0 ** -rng.uniform(6.5, 8.5)))
+            pc[pa], pc[pb] = x, float("%.3g" % (x * rng.uniform(1.5, 4.0)))
+        elif j == 0 or rng.random() < 0.5:
             pc[pa] = rng.choice([0.0, 0])          # explicit zero in pa, absent in pb
         c["pconf"] = pc
         comps.append(c)
@@ -446,13 +451,13 @@ def odd_names(rng, desc):
 ODD_PHASES = ["tx{burst}", "{}", "{0}", "a}", "%s", "100%", "on battery", "N/A ", "1", "α", "it's", "a.b", ""]
 
 
-def odd_phase(rng, desc):
+def odd_phase(rng, desc, pool=None, which=None):
     """rename one system phase (and every reference to it) to an unusual but legal name"""
     ph = desc.get("phases") or {}
     if not ph:
         return
-    old = rng.choice(list(ph))
-    new = rng.choice([n for n in ODD_PHASES[:-1] if n not in ph] or [old])
+    old = which if which in ph else rng.choice(list(ph))
+    new = rng.choice([n for n in (pool or ODD_PHASES[:-1]) if n not in ph] or [old])
     desc["phases"] = {(new if k == old else k): v for k, v in ph.items()}
     for c in desc["comps"]:
         pc = c.get("pconf")
@@ -489,6 +494,12 @@ def add_fallback(rng, desc):
         mux["args"]["rs"] = rs[:len(new)]
     mux["parents"] = new
     mux.pop("plist", None)
+    if rng.random() < 0.4:
+        # ground current tabulated over the input voltage: it must be looked up at the voltage of the input the mux runs FROM
+        v1 = abs(first["args"]["vo"]) or 1.0
+        vi = sorted({float("%.3g" % (v1 * f)) for f in (0.5, 0.9, 1.1, 2.0)})
+        io = [0.0, 0.05, 0.3, 1.0]
+        mux["args"]["ig"] = {"vi": vi, "io": io, "ig": [[ud(rng, 1e-5, 5e-3, 3) for _ in io] for _ in vi]}
     dead["args"]["vo"] = rng.choice([0.0, 0.0, 0])
     desc["_fallback"] = {"mux": mux["name"], "dead": dead["name"], "feeds": first["name"]}
 
